@@ -549,13 +549,11 @@ class PWLCalibration(keras.layers.Layer):
     Returns:
       List of assertion ops in graph mode or immediately asserts in eager mode.
     """
-    # Assert by computing outputs for keypoints and testing them against
-    # constraints.
-    test_inputs = tf.constant(
-        value=self.input_keypoints,
-        dtype=self.dtype,
-        shape=[len(self.input_keypoints), 1])
-    outputs = self.call(test_inputs)
+    # Assert on the outputs at the (possibly learned) keypoints, which the
+    # kernel describes directly. Evaluating the layer on the initial keypoints
+    # does not work with split_outputs or missing-value imputation and does not
+    # see learned keypoints.
+    outputs = self.keypoints_outputs()
 
     asserts = pwl_calibration_lib.assert_constraints(
         outputs=outputs,
